@@ -398,12 +398,17 @@ def run(cx):
         rk = [(I.shorten_vars(a), I.shorten_vars(b)) for a, b in I.stores(fn, F, 'rk')]
         cx.add('I-SM4', 'new/rk', rec[0] if rec is not None else rk == [(IDX[r], 'k[%d]#{[%d]}' % (r, r)) for r in range(4)], 'rk_i = K_{i+4} for i = 0..31, each stored once%s' % ((' -- ' + rec[1]) if rec is not None and not rec[0] else ''), fn.loc(), {'got': rk})
         init = [cn.c(norm(P.rvalue(s_['rv'], b, i, 0))) for b, i, s_ in fn.stmts() if s_['k'] == 'assign' and fn.locals[s_['lhs']['l']].get('name') == 'k' and not s_['lhs']['p']]
-        mk = words('k')
-        fk_ok = init == ['array{%s}' % ', '.join('BitXor(%s[%d], FK[%d])' % (mk, k, k) for k in range(4))]
+        # (a definition by a call -- `let k: [u32; 4] = std::array::from_fn(|j| ..)` -- is a terminator, not a statement)
+        for b_, t_ in fn.calls():
+            d_ = t_.get('dest')
+            if d_ is not None and not d_['p'] and fn.locals[d_['l']].get('name') == 'k' and t_.get('target') is not None:
+                init.append(re.sub(r'^var:k=', '', cn.c(norm(P.local(d_['l'], t_['target'], 0)))))
+        W = ['from_be_bytes:u32(unwrap(try_into(index($k, Range::Range{%d, %d}))))' % (4 * k, 4 * k + 4) for k in range(4)]
+        fk_ok = init == ['array{%s}' % ', '.join('BitXor(%s, FK[%d])' % (W[k], k) for k in range(4))]
         if not fk_ok:
             # the four words written one by one into a larger zeroed array (K kept as K0..K35)
             first = [(a_, b_) for a_, b_ in I.stores(fn, F, 'k') if 'k[' not in I.shorten_vars(b_)]
-            fk_ok = first == [(str(k), 'BitXor(%s[%d], FK[%d])' % (mk, k, k)) for k in range(4)] and init in (['repeat{0}'], [])
+            fk_ok = first == [(str(k), 'BitXor(%s, FK[%d])' % (W[k], k)) for k in range(4)] and init in (['repeat{0}'], [])
         cx.add('I-SM4', 'new/fk', fk_ok, '(K0..K3) = MK ^ FK with MK read big-endian', fn.loc())
         rets = I.returns(fn, F, True)
         # the object is built from the local `rk` (decided by new/rk) after every write of it: the whole-array read sees a
